@@ -68,6 +68,21 @@ def apply_override(how, value, ctx, real=False):
     raise ValueError(how)
 
 
+def _walk_stmts(stmts):
+    for st in stmts:
+        if not isinstance(st, list) or not st:
+            continue
+        yield st
+        for part in st[1:]:
+            if isinstance(part, list) and part and isinstance(part[0], list):
+                yield from _walk_stmts(part)
+                for sub in part:
+                    if isinstance(sub, list):
+                        for q in sub:
+                            if isinstance(q, list) and q and isinstance(q[0], list):
+                                yield from _walk_stmts(q)
+
+
 def canon_event(data):
     from ptera.interpret import Capture
 
@@ -89,7 +104,9 @@ class Engine:
         from . import catalogue
 
         program = scenario.get("program") or catalogue.get(scenario["prog"])
-        self.sim = Sim(program, scenario.get("prog_name") or scenario["prog"])
+        variants = ("trc", "sys") if scenario.get("no_ref") else ("ref", "trc", "sys")
+        self.sim = Sim(program, scenario.get("prog_name") or scenario["prog"], variants=variants)
+        self.sim.tr.decl_hook = self.decl_hook
         self.viol = []
         self.harness_err = []
         self.probes = {}
@@ -438,6 +455,62 @@ class Engine:
         }
         return ob, res
 
+    def decl_hook(self, fn, var, act, tracer):
+        """C16: a declared-only variable is supplied by the most recently
+        activated never-declining overrider aimed at it, if any."""
+        from .tracer import NOVALUE
+
+        val = NOVALUE
+        for pid in self.order:
+            rec = self.probes[pid]
+            how = rec.spec.get("how")
+            if how and how[0] == "const":
+                sel = rec.spec["sels"][0]
+                if sel["levels"][-1]["fn"] == fn and sel["focus"]["var"] == var and len(sel["levels"]) == 1:
+                    val = how[1]
+        if val is NOVALUE:
+            self.sim.reach("declared_not_supplied")
+        else:
+            self.sim.reach("declared_supplied")
+            self._latest.setdefault(act.id, {})[var] = val
+        return val
+
+    def compare_decl(self, op, r):
+        """C16 verdict for one call: model (traced twin with decl hook) vs ptera."""
+        m, s_ = r["trc"], r["sys"]
+        mo, so = m["out"], s_["out"]
+        if mo[0] == "exc" and mo[1][1] == "ModelNameError":
+            fn, var = mo[1][2]
+            ok = (
+                so[0] == "exc"
+                and so[1][1] == "PteraNameError"
+                and so[1][2] == var
+                and so[1][3] == fn
+                and so[1][4] != "info-failed"
+                and so[1][5] == "body"
+                and s_["log"] == m["log"]
+            )
+            if ok:
+                want = self.sim.fnir[fn]
+                ann = [st for st in _walk_stmts(want["body"]) if st[0] == "ann" and st[1] == var][0][2]
+                got_ann = so[1][4]
+                if ann == "int":
+                    ok = got_ann == "int"
+                else:
+                    tags = sorted(t.strip().lstrip("@") for t in ann.strip('"').split("&"))
+                    ok = all(f"ptera.tag.{t}" in got_ann for t in tags)
+            if not ok:
+                self.violate("C16.name_error", {"op": op, "model": m, "sys": s_})
+            return
+        if mo[0] == "exc" and mo[1][1] in ("NameError", "UnboundLocalError"):
+            self.sim.reach("undefined_name_used")
+            ok = so[0] == "exc" and so[1][1] in ("NameError", "UnboundLocalError", "PteraNameError") and s_["log"] == m["log"]
+            if not ok:
+                self.violate("C16.name_error_at_use", {"op": op, "model": m, "sys": s_})
+            return
+        if so != mo or s_["log"] != m["log"]:
+            self.violate("C16.supplied", {"op": op, "model": m, "sys": s_})
+
     def closure_override(self, op):
         """An active, never-declining overrider aimed at a closure variable of the
         function this operation calls directly."""
@@ -667,7 +740,11 @@ class Engine:
                     "C01.same_envlog",
                     {"op": op, "ref": r["ref"]["log"], "sys": r["sys"]["log"]},
                 )
-        closure_ov = self.closure_override(op)
+        if self.sc.get("c16"):
+            self.compare_decl(op, r)
+            ok_model = False  # streams are not judged in this lens
+            raised_now = True
+        closure_ov = None if self.sc.get("c16") else self.closure_override(op)
         if closure_ov:
             self.sim.reach("closure_override_attempt")
             o = r["sys"]["out"]
